@@ -202,10 +202,6 @@ func allMethods(P *Program, sp *ssa.Package) map[*ssa.Function]bool {
 	return out
 }
 
-func checkCmd(args []string) {
-	fmt.Fprintln(os.Stderr, "not implemented yet")
-	os.Exit(2)
-}
 
 func typesOf(t *ssa.Type) []types.Type {
 	return []types.Type{t.Type(), types.NewPointer(t.Type())}
